@@ -8,6 +8,6 @@ git -C /repo worktree add -q "$wt" HEAD || exit 9
 trap 'git -C /repo worktree remove --force "$wt" >/dev/null 2>&1; git -C /repo worktree prune' EXIT
 git -C "$wt" apply "$d/patch.diff" || { echo "patch does not apply"; exit 9; }
 for p in "$@"; do
-  VERIF_REPO="$wt" /verif/vcheck "$p" --tier "${TIER:-quick}" 2>&1 | grep -E "^\[|VIOLATION|MACHINERY|KNOWN|UNDECIDED" | cut -c1-230 | head -${LINES_MAX:-6}
+  VERIF_REPO="$wt" VERIF_EVIDENCE_DIR="$wt/_evidence" VERIF_REPLAY_DIR="${SEED_REPLAYS:-$wt/_replays}" /verif/vcheck "$p" --tier "${TIER:-quick}" 2>&1 | grep -E "^\[|VIOLATION|MACHINERY|KNOWN|UNDECIDED" | cut -c1-230 | head -${LINES_MAX:-6}
   echo "exit($p)=${PIPESTATUS[0]}"
 done
